@@ -48,6 +48,14 @@ Proof. exact bucket_rc. Qed.
 Theorem C08_check_msp_sound : forall k rcmode l, check_msp k rcmode l = true -> msp_out_ok k rcmode l.
 Proof. exact check_msp_sound. Qed.
 
+(* the piece half alone (linear): what is run on reads of tens of thousands of bases *)
+Theorem C08_check_tiling_sound : forall k rcmode l, check_tiling k rcmode l = true ->
+  1 <= k /\ Forall (read_ok k) l.
+Proof.
+  intros k rc l H. assert (Hk : 1 <= k) by (unfold check_tiling in H; apply andb_prop in H as [H1 _]; now apply Nat.leb_le in H1).
+  exact (check_tiling_sound k rc Hk l H).
+Qed.
+
 (* reads shorter than k give no pieces; a container that cannot hold 2k-p bases is refused *)
 Example C08_short_read : msp_sequence 64 [0;1;2]%N 5 2 None true = Some [].
 Proof. reflexivity. Qed.
@@ -68,3 +76,4 @@ Print Assumptions C08_piece_exact.
 Print Assumptions C08_bucket_pure.
 Print Assumptions C08_bucket_rc.
 Print Assumptions C08_check_msp_sound.
+Print Assumptions C08_check_tiling_sound.
